@@ -84,6 +84,52 @@ def suite_c03(r, n):
                     mkey = "%s/%s_%s" % (dkey[0], dkey[1], m["name"])
                     jobs.append(("raw", "p%d" % p.pid, "%s/%s" % skey, mkey, "%s|%s" % (kind, dump_val(gen_args(r, p, m)))))
                     rawmeta.append((kind, m["oneway"], mkey))
+    # concurrent use of ONE generated client / transport / processor: N calls of one method with pairwise different
+    # argument tuples from G goroutines; every call is an ordinary g3 case (the model is per call — calls do not
+    # interact), the handler recognises the call by the arguments it received
+    concmeta = []
+    for p in progs:
+        cands = [(skey, dkey, m) for skey in p.services for (dkey, m) in p.all_methods(skey) if m["args"]]
+        for _ in range(max(1, per // 40)):
+            if not cands: break
+            skey, dkey, m = r.pick(cands)
+            transport = r.pick([t for t in TRANSPORTS if t != "bounded"] + ["http"])
+            proto = r.pick(["binary", "compact", "json"])
+            ncalls, g = 6 + r.intn(18), 2 + r.intn(7)
+            calls, seen = [], set()
+            for _ in range(ncalls * 3):
+                if len(calls) >= ncalls: break
+                args = gen_args(r, p, m)
+                key = args_dump(p, m, args)
+                if key in seen: continue
+                seen.add(key)
+                kinds = ["v", "v", "v", "e", "a"] + (["x", "x"] if m["throws"] else [])
+                if m["oneway"]: kinds = ["v"]
+                kind = r.pick(kinds)
+                if kind == "v":
+                    rv = gen_val(r, p, m["ret"], 1) if m["ret"] is not None else None
+                    outcome = "v" + (dump_val(rv) if rv is not None else "")
+                    want = ("ok " + canon_dump(p, m["ret"], rv)) if rv is not None else "void"
+                elif kind == "x":
+                    (eid, en, et) = r.pick(m["throws"])
+                    ev = gen_struct(r, p, (et.file, et.name), 1)
+                    outcome = "x%d=%s" % (eid, dump_val(ev))
+                    want = "exc %d %s" % (eid, canon_dump(p, et, ev))
+                elif kind == "e":
+                    outcome, want = "e", "app 6"
+                else:
+                    ty = r.pick([0, 3, 6, 7, 10])
+                    outcome, want = "a%d" % ty, "app %d" % ty
+                if m["oneway"]: want = "void"
+                calls.append((args, outcome, want))
+            if len(calls) < 2: continue
+            mkey = "%s/%s_%s" % (dkey[0], dkey[1], m["name"])
+            payload = "%s,%s|%d|%s" % (transport, proto, g, "|".join("%s|%s" % (dump_val(a), o) for (a, o, w) in calls))
+            jobs.append(("rpcc", "p%d" % p.pid, "%s/%s" % skey, mkey, payload))
+            defs = p.defs_code()
+            concmeta.append((p, "%s:%s:conc%s" % (transport, proto, ":oneway" if m["oneway"] else ""), g,
+                             [("g3 %s %s %d %s %s" % (defs, mkey, 1 if m["oneway"] else 0, dump_val(a), o),
+                               "calls=1 args=%s cid=ok result=%s" % (args_dump(p, m, a), w)) for (a, o, w) in calls]))
     res, err = build_and_run(progs, jobs)
     if res is None:
         OracleFail("valid IDL with services was not compiled to Go that builds", {"op": "build", "detail": err[:3000]})
@@ -97,6 +143,24 @@ def suite_c03(r, n):
         if real != want:
             OracleFail("the emitted processor did not answer a request exactly once with the appropriate well-formed reply",
                        {"op": "g14", "case": "%s:%s:%s" % (kind, "oneway" if oneway else "twoway", mkey), "got": str(real)[:300], "want": want})
+    for (p, tag, g, calls), real in zip(concmeta, (res or [])[len(meta) + len(rawmeta):]):
+        segs = (real or "no-result").split(" ;; ")
+        Stat("conc:groups"); Stat("conc:goroutines", g); Stat("conc:calls", len(calls))
+        extra = [x for x in segs if x.startswith("FOREIGN=")]
+        segs = [x for x in segs if not x.startswith("FOREIGN=")]
+        if len(segs) != len(calls):
+            segs = [real or "no-result"] * len(calls)
+        bad = None
+        for (line, expect), seg in zip(calls, segs):
+            Case(line, seg)
+            Stat("evaluations")
+            if seg != expect and bad is None: bad = (line, seg, expect)
+        for t in tag.split(":"): Stat("dim:" + t)
+        if bad or extra:
+            line, seg, expect = bad or (calls[0][0], extra[0], "no handler invocation with arguments of no issued call")
+            OracleFail("concurrent calls through one generated client and transport: a call is not faithful (its handler did not run exactly once with its arguments, or its caller observed another outcome)",
+                       {"op": "g3c", "case": "%s g=%d n=%d" % (tag, g, len(calls)), "line": line, "got": (seg + " " + " ".join(extra))[:1500], "want": expect[:1500],
+                        "idl": "\n".join(p.text(f) for f in p.files)[:4000]})
     for (p, line, expect, tag, mwlines, mwexpect, ks, hinfo, oneway_m), real in zip(meta, res):
         if real is None: real = "no-result"
         segs = real.split(" || ")
